@@ -116,7 +116,7 @@ def jobs(tier, seed):
     out = []
     quick = tier == "quick"
     L = 3 if quick else 4
-    shapes = ["G-NU", "G-CAT", "G-UC", "G-DUP", "G-WIDE", "G-NB"] if quick else \
+    shapes = ["G-NU", "G-CAT", "G-UC", "G-DUP", "G-WIDE", "G-NB", "G-2CYC", "G-DIA"] if quick else \
         ["G-NU", "G-CAT", "G-LR", "G-UC", "G-DUP", "G-NULL3", "G-WIDE", "G-FIN", "G-TRI", "G-MUT", "G-PAL"]
     for sh in shapes:
         sk = grammar(sh)
@@ -153,7 +153,7 @@ def jobs(tier, seed):
         renames = [[(X, f"Z{len(nts) - i}") for i, X in enumerate(nts)], [(X, (X, 0)) for X in nts]]
         for rn in renames[: (1 if quick else 2)]:
             out.append(dict(case="parsers", params=dict(shape=sh, strings=strings, parsers=["call", "earley", "cky"], rename=rn)))
-    for sh in (["G-NU", "G-FIN"] if quick else ["G-NU", "G-FIN", "G-CAT", "G-DUP", "G-PAL"]):
+    for sh in (["G-NU", "G-FIN", "G-DUP"] if quick else ["G-NU", "G-FIN", "G-DUP", "G-CAT", "G-DUP2", "G-PAL"]):
         for n in ([0, 2] if quick else [0, 1, 2, 3]):
             out.append(dict(case="materialize", params=dict(shape=sh, n=n)))
     out.append(dict(case="parsers", params=dict(shape="G-S1", strings=[[], ["a"], ["a", "a"]], parsers=["call", "earley", "cky"], canary=True)))
